@@ -523,6 +523,9 @@ class HistogramBase(abc.ABC):
         # TODO: remove in favour of adaptive property
         if not all(b.adaptive_allowed for b in self._binnings):
             raise ValueError("All binnings must allow adaptive behaviour.")
+        if value and not self.is_adaptive():
+            # The binning objects may be shared with other histograms, adaptive ones must not be
+            self._binnings = [binning.copy() for binning in self._binnings]
         for binning in self._binnings:
             binning.set_adaptive(value)
 
